@@ -330,6 +330,8 @@ def check_event(e):
 
 
 def replay(case):
+    if 'e2e' in case:
+        return e2e_worker([tuple(case['e2e'])]).failures
     if 'calls' in case:
         return check_seq(case)
     return check_event(case['event'])
@@ -383,7 +385,70 @@ def _dispatch(t):
     return {'calls': w_calls, 'events': w_events}[t[0]](t[1])
 
 
+def e2e_worker(chunk):
+    """the layer above create_sa (Xfrm.create_child_sa: proposal -> kernel algorithm names, key lengths, lifetime with jitter,
+    'no expiry'), driven by a real negotiation: every NEWSA of both daemons against a table written from the kernel's names"""
+    from .. import gen, sim as SM_
+    names = {'sha1': ('hmac(sha1)', 160), 'sha256': ('hmac(sha256)', 256), 'sha512': ('hmac(sha512)', 512)}
+    st_ = Stats()
+    for (integ, encr, proto, mode, lt, v6) in chunk:
+        cfg = gen.simple_cfg(dh='19', mode=mode, proto=proto, v6=v6)
+        e = cfg['protect'][0]
+        e['integ_a'] = e['integ_b'] = [integ]
+        e['encr_a'] = e['encr_b'] = [encr]
+        e['lifetime_a'] = e['lifetime_b'] = lt
+        s = SM_.Sim(cfg, monitors=[SM_.NoEscape()])
+        s.apply(['acquire', 'a', 0, 1])
+        s.flush()
+        s.apply(['expire', 'b', 0, False])              # a rekey: the replacement is installed by the same layer
+        s.flush()
+        fails = list(s.fails)
+        n = 0
+        for name, ep in s.eps.items():
+            for ent in ep.kernel.requests(KN.NEWSA):
+                if ent['dec'].get('body') is None:
+                    continue
+                r = KN.norm_sa(ent['dec'])
+                n += 1
+                if r['auth'] is None or (r['auth']['name'], r['auth']['key_bits']) != names[integ]:
+                    fails.append(Failure('child-sa:auth-algorithm', f'NEWSA for an SA negotiated with {integ} names '
+                                                                    f'{r["auth"] and (r["auth"]["name"], r["auth"]["key_bits"])}'))
+                want_c = ('cbc(aes)', int(encr[3:])) if proto == 'esp' else None
+                got_c = (r['crypt']['name'], r['crypt']['key_bits']) if r['crypt'] else None
+                if got_c != want_c:
+                    fails.append(Failure('child-sa:cipher', f'NEWSA for a {proto} SA negotiated with {encr} carries cipher {got_c}'))
+                if lt < 0:
+                    if (r['soft_add'], r['hard_add']) != (0, 0):
+                        fails.append(Failure('child-sa:lifetime-none', f'an entry with lifetime -1 (no expiry) was installed with soft/hard '
+                                                                       f'{r["soft_add"]}/{r["hard_add"]} s'))
+                elif not (lt <= r['soft_add'] <= lt + 5) or r['hard_add'] != r['soft_add'] + 10:
+                    fails.append(Failure('child-sa:lifetime', f'an entry with lifetime {lt} s was installed with soft/hard '
+                                                              f'{r["soft_add"]}/{r["hard_add"]} s (jitter 0..5, hard = soft + 10)'))
+                if r['mode'] != (0 if mode == 'transport' else 1):
+                    fails.append(Failure('child-sa:mode', f'a {mode} entry was installed with mode {r["mode"]}'))
+        if n < 4:
+            fails.append(Failure('child-sa:not-negotiated', f'only {n} NEWSA requests in a handshake + rekey of a compatible configuration'))
+        st_.case(common.jhash([integ, encr, proto, mode, lt, v6]), nontrivial=True, klass=['e2e-child-sa', f'e2e:integ={integ}', f'e2e:lifetime={lt}'],
+                 sample={'integ': integ, 'encr': encr, 'proto': proto, 'mode': mode, 'lifetime': lt})
+        for f in fails:
+            f.case = {'e2e': [integ, encr, proto, mode, lt, v6]}
+            if common.KNOWN.is_open('C14', f.sig):
+                st_.excluded[f.sig] += 1
+            elif not any(g.sig == f.sig for g in st_.failures):
+                st_.failures.append(f)
+    return st_
+
+
+def e2e_grid():
+    return [(i, e, p, m, lt, v6) for i in ('sha1', 'sha256', 'sha512') for e in ('aes128', 'aes256') for p in ('esp', 'ah')
+            for m in ('transport', 'tunnel') for lt in (-1, 1, 300, 86400) for v6 in (False, True)]
+
+
 def run(ctx):
+    g = e2e_grid()
+    for st_ in pmap(e2e_worker, [g[i::common.NCPU] for i in range(common.NCPU)]):
+        ctx.stats.merge(st_)
+    ctx.extra['e2e_child_sa'] = f'{len(g)} negotiated configurations (integrity x cipher x ESP/AH x mode x lifetime incl. -1 x family), handshake + rekey'
     q = ctx.quick
     tasks = [('calls', (300 if q else 12000, ctx.seed * 64 + i)) for i in range(10)]
     tasks += [('events', (400 if q else 12000, ctx.seed * 64 + 20 + i)) for i in range(6)]
